@@ -621,7 +621,8 @@ class C11(core.PropertyCheck):
         if r < 0.64 and not embedded:
             return ".. include:: /includes/fact.rst"
         if r < 0.72 and not embedded:
-            return rng.choice([".. include:: /includes/steps/setup.rst", ".. include:: /includes/extracts/note-one.rst"])
+            return rng.choice([".. include:: /includes/steps/setup.rst", ".. include:: /includes/extracts/note-one.rst",
+                               ".. include:: /includes/extracts/note-two.rst", ".. include:: /includes/extracts/note-three.rst"])
         if r < 0.80:
             t = "/" + rng.choice(self.PAGES + self.GHOSTS).rsplit(".", 1)[0]
             return f".. card-group::\n   :columns: 2\n\n   .. card::\n      :headline: Head\n      :url: {t}\n\n      Card text."
@@ -643,7 +644,10 @@ class C11(core.PropertyCheck):
             return "\n\n".join(bl).replace("\n", "\n  ")
         if kind == "steps":
             return f"title: Set up {rng.randint(0, 9)}\nref: setup-one\ncontent: |\n  {content()}\n...\n"
-        return f"ref: note-one\ncontent: |\n  {content()}\n...\n"
+        # one page per entry: every generated page has dependencies of its own (a file read by the second entry only must
+        # invalidate the cached file just as one read by the first)
+        refs = ["note-one", "note-two", "note-three"][: rng.choice([1, 2, 2, 3])]
+        return "---\n".join(f"ref: {r}\ncontent: |\n  {content()}\n" for r in refs) + "...\n"
 
     def gen_project(self, rng):
         cfg = {"name": "c11", "title": "Title", "constants": {"ver": rng.choice(["1.0", "2.1"])},
@@ -781,6 +785,20 @@ class C11(core.PropertyCheck):
             elif op["op"] == "delete":
                 sim["files"].pop(op["path"], None)
         case["history"] = hist
+        if rng.random() < 0.3:
+            # the history goes on after a cached build took place in the same process (a language server, a watch loop): what that
+            # build learnt about the files of its time must not outlive it
+            hist2 = []
+            for _ in range(rng.choice([1, 1, 2])):
+                op = self.gen_op(rng, sim, cfg)
+                if op["op"] == "cache":
+                    continue
+                hist2.append(op)
+                if op["op"] == "write":
+                    sim["files"][op["path"]] = {k: v for k, v in op.items() if k in ("text", "hex")}
+                elif op["op"] == "delete":
+                    sim["files"].pop(op["path"], None)
+            case["history2"] = hist2
         del case["cfg"]
         return case
 
@@ -845,6 +863,14 @@ class C11(core.PropertyCheck):
             return
         if case["kind"] != "e2e":
             return
+        if case.get("history2"):
+            c = copy.deepcopy(case)
+            c["history"] = c["history"] + c.pop("history2")   # the same edits without the cached build in between
+            yield c
+            for i in range(len(case["history2"])):
+                c = copy.deepcopy(case)
+                del c["history2"][i]
+                yield c
         for i in range(len(case["history"])):
             if len(case["history"]) > 1:
                 c = copy.deepcopy(case)
@@ -892,9 +918,13 @@ class C11(core.PropertyCheck):
             w.remember_cache()
             for op in case["history"]:
                 w.apply(op)
+            if case.get("history2"):
+                build(w.root, load=True)   # a cached build in between (nothing is saved): only its process-wide leftovers matter
+                for op in case["history2"]:
+                    w.apply(op)
             cached, clean = w.cached_vs_clean()
             diff = diff_builds(cached, clean)
-            touched = {op["path"][len("source/"):] for op in case["history"] if op["op"] in ("write", "delete") and op["path"].startswith("source/")}
+            touched = {op["path"][len("source/"):] for op in case["history"] + case.get("history2", []) if op["op"] in ("write", "delete") and op["path"].startswith("source/")}
             blame = sorted({u["site"] for u in unrecorded if u["path"] in touched})
             directed = []
             seen = set()
